@@ -40,3 +40,5 @@ func vC04Ref(L int) {
 func vhC04_ref_L2() { vC04Ref(2) }
 func vhC04_ref_L3() { vC04Ref(3) }
 func vhC04_ref_L4() { vC04Ref(4) }
+func vhC04_ref_L5() { vC04Ref(5) }
+func vhC04_ref_L6() { vC04Ref(6) }
